@@ -136,5 +136,16 @@ pub mod io {
             ensures final(self).remaining() == old(self).remaining().subrange(amt as int, old(self).remaining().len() as int),
                 final(self).budget() == old(self).budget(), final(self).errored() == old(self).errored(),
                 final(self).min_window() == old(self).min_window();
+        // documented contract of std::io::BufRead::read_until: everything up to and including the first `byte` (or up to the
+        // end of input) is appended to buf; Interrupted is retried by std; on Err what was read so far may have been appended
+        fn read_until(&mut self, byte: u8, buf: &mut Vec<u8>) -> (r: Result<usize>)
+            ensures
+                r matches Ok(n) ==> ({ let rem = old(self).remaining();
+                    &&& n <= rem.len() && final(self).remaining() == rem.subrange(n as int, rem.len() as int) && final(buf)@ == old(buf)@ + rem.subrange(0, n as int)
+                    &&& (forall|i: int| 0 <= i < n - 1 ==> rem[i] != byte)
+                    &&& (n > 0 && rem[n - 1] == byte || n == rem.len() && (forall|i: int| 0 <= i < n ==> rem[i] != byte))
+                    &&& final(self).errored() == old(self).errored() }),
+                r.is_err() ==> final(self).errored(),
+                final(self).min_window() == old(self).min_window();
     }
 }
